@@ -45,9 +45,9 @@ type c19scn struct {
 
 func (c19) Plan(tier string, seed uint64) []core.Case {
 	faults := map[string][]string{
-		rig.TCP:    {"finish", "fail", "fail-unsent", "reset", "halfclose", "garbage", "nonenvelope", "oversize"},
-		rig.WS:     {"finish", "fail", "fail-unsent", "reset", "halfclose", "garbage", "nonenvelope"},
-		rig.InProc: {"finish", "fail", "fail-unsent"},
+		rig.TCP:    {"finish", "fail", "fail-unsent", "reset", "halfclose", "garbage", "nonenvelope", "oversize", "regress"},
+		rig.WS:     {"finish", "fail", "fail-unsent", "reset", "halfclose", "garbage", "nonenvelope", "regress"},
+		rig.InProc: {"finish", "fail", "fail-unsent", "drop", "regress"},
 	}
 	moments := []string{"idle", "sending", "pushing", "reestablishing"}
 	var scns []c19scn
@@ -69,6 +69,10 @@ func (c19) Plan(tier string, seed uint64) []core.Case {
 	}
 	for _, f := range []string{"finish-injected", "garbage", "nonenvelope"} {
 		scns = append(scns, c19scn{f, "blocked-send", rig.TCP, 1})
+	}
+	// the application does nothing after the loss: the background listener alone has to notice it and build a new session
+	for _, sc := range []c19scn{{"finish", "passive", rig.TCP, 1}, {"reset", "passive", rig.TCP, 1}, {"garbage", "passive", rig.WS, 1}, {"fail", "passive", rig.WS, 1}, {"drop", "passive", rig.InProc, 1}, {"finish", "passive", rig.InProc, 1}, {"regress", "passive", rig.TCP, 1}, {"regress", "passive", rig.InProc, 1}} {
+		scns = append(scns, sc)
 	}
 	// many application goroutines inside the client's fast path while the session is lost again and again
 	scns = append(scns, c19scn{"garbage", "concurrent-callers", rig.TCP, 25}, c19scn{"reset", "concurrent-callers", rig.TCP, 25}, c19scn{"fail", "concurrent-callers", rig.InProc, 25}, c19scn{"garbage", "concurrent-callers", rig.WS, 15})
@@ -388,6 +392,19 @@ func (p c19) scenario(r *core.Result, s c19scn, seed uint64) {
 		case "finish-injected":
 			// the finished session arrives although the client's own send is stuck (the proxy speaks for the server)
 			inject([]byte(`{"id":"` + ses.id + `","from":"postmaster@verif.local/srv","state":"finished"}` + "\n"))
+		case "drop":
+			// the server's end of the connection is closed abruptly: no session envelope announces it
+			_ = ses.sc.VerifTransport().Close()
+		case "regress":
+			// a session envelope that moves the established session back to an earlier state
+			if pc != nil {
+				inject([]byte(`{"id":"` + ses.id + `","from":"postmaster@verif.local/srv","state":"authenticating","schemeOptions":["guest"]}` + "\n"))
+			} else {
+				reg := &lime.Session{State: lime.SessionStateAuthenticating, SchemeOptions: []lime.AuthenticationScheme{lime.AuthenticationSchemeGuest}}
+				reg.ID = ses.id
+				go func() { _ = ses.sc.VerifTransport().Send(ctx, reg) }()
+				time.Sleep(2 * time.Millisecond)
+			}
 		case "reset":
 			pc.Reset()
 		case "halfclose":
@@ -410,6 +427,22 @@ func (p c19) scenario(r *core.Result, s c19scn, seed uint64) {
 			break
 		}
 		faultAt = t0
+		if s.Moment == "passive" {
+			if !func() bool {
+				deadline := time.Now().Add(12 * time.Second)
+				for time.Now().Before(deadline) {
+					if _, n := latestSession(); n > before {
+						return true
+					}
+					time.Sleep(5 * time.Millisecond)
+				}
+				return false
+			}() {
+				fail("listener-deaf", "12 s after the fault, with no client operation issued, the client's background listener has not established a new session (transports built: %d, listener iterations: %d)", atomic.LoadInt64(&built), atomic.LoadInt64(&listenIters))
+			} else {
+				r.Count("passive_recoveries", 1)
+			}
+		}
 		if s.Moment == "reestablishing" {
 			// hit the client again as soon as it has a new session
 			deadline := time.Now().Add(10 * time.Second)
